@@ -35,7 +35,7 @@ def gen_ir(r):
     renames = {}
     for n in list(ir["params"]):
         if r.random() < 0.07:
-            renames[n] = r.choice(["extra_args", "model_args", "n_args", "args_list", "my_kwargs_like", "type_", "self_weight"])
+            renames[n] = r.choice(["extra_args", "model_args", "n_args", "args_list", "my_kwargs_like", "type_", "self_weight", "_seed", "_private_x", "__mangled"])
     if renames:
         from collections import OrderedDict as _OD
 
@@ -43,6 +43,12 @@ def gen_ir(r):
     for n, p in ir["params"].items():
         if r.random() < 0.06:
             p["typ"], p["default"] = r.choice([("float", 1e+20), ("float", 2.5e+16), ("float", 1e-10), ("Optional[float]", 1e+20), ("float", 123456789.125)])
+    # an enumeration may have the empty string among its members (a legal choice), also as the default
+    for n, p in ir["params"].items():
+        if p["typ"].startswith("Literal[") and r.random() < 0.25:
+            p["typ"] = p["typ"][:-1] + ", '']" if r.random() < 0.5 else "Literal['', " + p["typ"][8:]
+            if "default" in p and r.random() < 0.4:
+                p["default"] = ""
     # negative numbers (a UnaryOp node in a signature) under scalar and Optional types; True/False under Optional[bool]
     for n, p in ir["params"].items():
         k = r.random()
@@ -195,6 +201,8 @@ def compare(chk, ir, tree, cfg="doc"):
                 sig = {"hop": f, "field": "default", "from": kind(pa["default"]), "to": kind(pb["default"]), "typ": typ_class(pa["typ"]), "cfg": cfg}
                 if pa["default"] is not None and pa["default"][0] == "str" and len(pa["default"][1]) >= 40:
                     sig["long"] = True
+                if pa["default"] is not None and pa["default"][0] == "str" and pa["default"][1] == "":
+                    sig["empty_str"] = True  # root cause: "Defaults to " + '' announces nothing, so the docstring carries no default
                 chk.failure(sig, "chain %s: %s.default %r -> %r (type %r)" % (seq, n, pa["default"], pb["default"], pa["typ"]), rp)
             elif pa["typ"] != pb["typ"]:
                 chk.failure({"hop": f, "field": "typ", "from": typ_class(pa["typ"]), "to": typ_class(pb["typ"]), "default": kind(pa["default"])},
